@@ -92,3 +92,10 @@ Example C19_history_bulk_operations :
   [ObsNone str; ObsVal str (lit "x"); ObsVal str (lit "p"); ObsVal str (lit "2"); ObsKeyError str; ObsVal str (lit "d");
    ObsKeys str [lit "package"; lit "priority"]; ObsNone str; ObsLen str 0].
 Proof. vm_compute. reflexivity. Qed.
+
+(* reading with a default: an empty stored value is a value (the default is for absent keys only) *)
+Example C19_history_get_with_default :
+  run_ops str (step822 lower_name str) [(lit "x-foo", [])]
+    [OGetDefault (lit "X-Foo") (lit "dflt"); OGetDefault (lit "X-Bar") (lit "dflt"); OGet (lit "x-FOO")] =
+  [ObsVal str []; ObsVal str (lit "dflt"); ObsVal str []].
+Proof. vm_compute. reflexivity. Qed.
